@@ -478,7 +478,9 @@ func c14() {
 	run.Sample(3, map[string]any{"strings_tried_for_allow": caseVariants(r0, "allow", 4096)[:6], "near_misses": nearMisses("allow")[:8], "unicode_folds": unicodeFolds("kill_process")})
 	run.Assume("letter-case variants are judged three-way: ASCII case variants must be accepted, strings not fold-equal to a documented name must be rejected, strings equal only through non-ASCII case folding may go either way but never to another constant",
 		"the configuration path is ucfg/yaml.NewConfig(+WithFile) and Unpack into struct{Seccomp Policy}, the two calls cmd/sandbox makes; the sandbox binary itself is exercised by C15")
+	c14WholeFilter(run, ts)
 	if run.Violations() == 0 {
+		run.Require("whole_filter_configurations", 50)
 		run.Require("action_strings_accepted", 100)
 		run.Require("action_strings_rejected", 100)
 		run.Require("operation_strings_accepted", 100)
